@@ -186,6 +186,7 @@ struct Kernel {
     // of the cut_conn-th established TCP connection the sending host "dies" (mode 1 FIN, 2 RST, 3 silence)
     int64_t cut_at = -1; int cut_mode = 0; int cut_dir = -1; int cut_conn = 0; int conn_count = 0;
     std::vector<std::pair<int, Addr>> connect_log;   // (task id, destination) of every TCP connect() issued
+    std::function<void(const char *path)> on_lib_fopen;   // somebody else changes the file system at the instant the library opens a file
     bool child_mode = false;   // this process is the forked child of the C08 cleanup scenario: owner-visible calls are violations
     bool record_calls = false;
     std::vector<KCallRec> callrec;
